@@ -28,8 +28,8 @@ OVERRIDE_VALUES = {
     'priority': ['low', 'high', 'syntax'], 'score': [1, '+5%'], 'category': ['student', 'style'], 'correct': [True, False],
 }
 POOL = ['Feedback', 'FeedbackResponse', 'explain', 'gently', 'compliment', 'set_correct', 'guidance', 'give_partial',
-        'system_error', 'blank_source', 'GenParent', 'GenChild', 'GenOther', 'GenConst', 'GenConst']
-GEN = ('GenParent', 'GenChild', 'GenOther', 'GenConst')
+        'system_error', 'blank_source', 'GenParent', 'GenChild', 'GenOther', 'GenConst', 'GenConst', 'GenEq', 'GenEq']
+GEN = ('GenParent', 'GenChild', 'GenOther', 'GenConst', 'GenEq')
 TEMPLATES = ['plain text', 'k={k}', 'k={k} unit={unit}', 'n={n} k={k}', '{k:name}', 'see {k:python_value} and {n:filename}', '{k!r}',
              '{k:frame}|{n:line}', '{k:python_expression}{k:output}', '{k:traceback}', '{k:inputs}', '{k:exception}',
              '{k:python_code}', '{{literal}} {k}', '{missing}', '{k:name} {missing:name}']
@@ -69,6 +69,16 @@ def setup():
         message_template = 'const {k} in {unit}'
         constant_fields = {'unit': 'px', 'scale': 2}     # keys the caller never passes: no precedence question
 
+    class GenEq(GenParent):
+        # an instructor's class with value equality (so that complaints can be de-duplicated in a set): two calls are still two records
+        title = 'Gen Eq'
+
+        def __eq__(self, other):
+            return isinstance(other, GenEq) and other.label == self.label
+
+        def __hash__(self):
+            return hash(self.label)
+
     class GenOther(Feedback):
         category = 'specification'
         field_names = ['k', 'n']
@@ -107,7 +117,7 @@ def setup():
     classes = {'Feedback': Feedback, 'FeedbackResponse': FeedbackResponse, 'explain': C.explain, 'gently': C.gently,
                'compliment': C.compliment, 'set_correct': C.set_correct, 'guidance': C.guidance,
                'give_partial': C.give_partial, 'system_error': C.system_error, 'blank_source': blank_source,
-               'GenParent': GenParent, 'GenChild': GenChild, 'GenOther': GenOther, 'GenConst': GenConst}
+               'GenParent': GenParent, 'GenChild': GenChild, 'GenOther': GenOther, 'GenConst': GenConst, 'GenEq': GenEq}
     snapshot_attrs = OVERRIDE_FIELDS + ['message', 'kind', 'valence', 'unscored', 'else_message']
     pristine = {n: {a: getattr(c, a) for a in snapshot_attrs} for n, c in classes.items()}
     own = {n: {a: (a in c.__dict__, c.__dict__.get(a)) for a in snapshot_attrs} for n, c in classes.items()}
